@@ -54,17 +54,18 @@ Fixpoint listing_eqb (a b : list (N * bool)) : bool :=
 
 Definition log_count (st : fs) : nat := match logs st with NoLog => 0 | _ => 1 end.
 
-Definition model_run (v : variant) (c : fcase) (r : frun) : fs * list N :=
+(* vd: variant of the delete loop of ReplaceFiles; vu: variant of deleteUnorderedFiles *)
+Definition model_run (vd vu : variant) (c : fcase) (r : frun) : fs * list N :=
   let inuse := fun n => mem n (fc_inuse c) in
   let fails := fun i => match f_fail r with Some j => Nat.eqb i j | None => false end in
   let live0 := map fst (filter (fun e => negb (snd e)) (fc_fs0 c)) in
-  let x := replace_exec v inuse fails 0 (f_old r) (f_new r) (fs0_of (fc_fs0 c)) live0 in
+  let x := replace_exec vd inuse fails 0 (f_old r) (f_new r) (fs0_of (fc_fs0 c)) live0 in
   if r_err x then (r_fs x, r_live x)
-  else unord_loop inuse fails (r_next x) (fc_unord c) (r_fs x) (r_live x).
+  else unord_loop_v vu inuse fails (r_next x) (fc_unord c) (r_fs x) (r_live x).
 
 (* 0 = agrees *)
-Definition run_code (v : variant) (c : fcase) (r : frun) : nat :=
-  let '(st, live) := model_run v c r in
+Definition run_code (vd vu : variant) (c : fcase) (r : frun) : nat :=
+  let '(st, live) := model_run vd vu c r in
   let re := recover (fc_univ c) st in
   if negb (listing_eqb (f_disk r) (disk_listing (fc_univ c) st)) then 61
   else if negb (Nat.eqb (f_log r) (log_count st)) then 62
@@ -85,29 +86,36 @@ Fixpoint steps_same (a b : list step) : bool :=
   | _, _ => false
   end.
 
+(* the attempts of the fault-free run: the canonical step list of the replacement, then the out-of-order inputs - removed /
+   parked one by one (today), or parked and then removed unless in use (after fix5) *)
+Definition unord_steps_rep (inuse : N -> bool) (unord : list N) : list step :=
+  flat_map (fun u => if inuse u then [Mv (u, false) (u, true)] else [Mv (u, false) (u, true); Rm (u, true)]) unord.
+
 Definition shape_code (c : fcase) : nat :=
   match fc_runs c with
   | r :: _ =>
       let inuse := fun n => mem n (fc_inuse c) in
-      if steps_same (fc_attempts c) (merge_steps inuse (f_old r) (f_new r) (fc_unord c)) then 0 else 60
+      if steps_same (fc_attempts c) (merge_steps inuse (f_old r) (f_new r) (fc_unord c)) then 0
+      else if steps_same (fc_attempts c) (replace_steps inuse (f_old r) (f_new r) ++ unord_steps_rep inuse (fc_unord c)) then 0
+      else 60
   | [] => 0
   end.
 
-(* per run: (index, code under Repaired, code under Current) when the Repaired model does not agree *)
-Fixpoint runs_from (c : fcase) (i : nat) (l : list frun) : list (nat * nat * nat) :=
+(* per run: (index, code under Repaired/Repaired, Repaired/Current, Current/Current) when the fully repaired model does not agree *)
+Fixpoint runs_from (c : fcase) (i : nat) (l : list frun) : list (nat * nat * nat * nat) :=
   match l with
   | [] => []
-  | r :: rest => match run_code Repaired c r with
+  | r :: rest => match run_code Repaired Repaired c r with
                  | 0 => runs_from c (S i) rest
-                 | code => (i, code, run_code Current c r) :: runs_from c (S i) rest
+                 | code => (i, code, run_code Repaired Current c r, run_code Current Current c r) :: runs_from c (S i) rest
                  end
   end.
 
-Definition fcase_mismatches (ci : nat) (c : fcase) : list (nat * nat * nat * nat) :=
-  (match shape_code c with 0 => [] | code => [(ci, 0, code, code)] end) ++
-  map (fun t => (ci, fst (fst t), snd (fst t), snd t)) (runs_from c 0 (fc_runs c)).
+Definition fcase_mismatches (ci : nat) (c : fcase) : list (nat * nat * nat * nat * nat) :=
+  (match shape_code c with 0 => [] | code => [(ci, 0, code, code, code)] end) ++
+  map (fun t => match t with (i, a, b, d) => (ci, i, a, b, d) end) (runs_from c 0 (fc_runs c)).
 
-Fixpoint fmismatches_from (ci : nat) (cs : list fcase) : list (nat * nat * nat * nat) :=
+Fixpoint fmismatches_from (ci : nat) (cs : list fcase) : list (nat * nat * nat * nat * nat) :=
   match cs with
   | [] => []
   | c :: r => fcase_mismatches ci c ++ fmismatches_from (S ci) r
